@@ -386,10 +386,17 @@ def addMfvWith [DecidableEq α] (oneSided : Bool → Bool → Bool → Bool → 
 def addMfv [DecidableEq α] (a b : Prof α) : List (α × Nat) := addMfvWith Gen.ProfileExpr.addMfvOneSided a b
 
 /-- The sketch of a sum: `sorted(set(self.kmv_hashes + profile.kmv_hashes))[:KVM_SIZE]` when both sides have
-one — a *set* of hashes: equal hashes of different values count once; otherwise the only sketch there is. -/
-def addKmv (size : Nat) (a b : List Nat) : List Nat :=
-  if !a.isEmpty && !b.isEmpty then (sortAsc (distinct (a ++ b))).take size
+one — a *set* of hashes: equal hashes of different values count once; otherwise the only sketch there is.
+`o` is the order of the two steps (de-duplicate, cut): the model follows the source into the other order too. -/
+def addKmvWith (o : SumSketchOrder) (size : Nat) (a b : List Nat) : List Nat :=
+  if !a.isEmpty && !b.isEmpty then
+    match o with
+    | .dedupThenCut => (sortAsc (distinct (a ++ b))).take size
+    | .cutThenDedup => sortAsc (distinct ((sortAsc (a ++ b)).take size))
   else if !b.isEmpty then b else a
+
+/-- …with the two steps in the order they have in the source (generated: `Gen.ProfileExpr.sumSketchOrder`). -/
+def addKmv (size : Nat) (a b : List Nat) : List Nat := addKmvWith Gen.ProfileExpr.sumSketchOrder size a b
 
 /-- `ColumnProfile.__add__` on everything but the histogram; transitions and order by the generated updates. -/
 def addProf [DecidableEq α] (a b : Prof α) : Prof α :=
